@@ -23,7 +23,7 @@ func c10Prog(id int, rng *rand.Rand, feat map[string]int) *Prog {
 	n := 2 + rng.Intn(7)
 	k := 3 + rng.Intn(20)
 	buf := []int{0, 1, 4}[rng.Intn(3)]
-	tmpl := rng.Intn(12)
+	tmpl := rng.Intn(13)
 	if v := os.Getenv("C10_T"); v != "" {
 		fmt.Sscan(v, &tmpl)
 	}
@@ -201,6 +201,25 @@ for j := 0; j < %d; j++ { jobs <- j }
 close(jobs)
 wg.Wait()
 rec(1, out)`, buf, k, n, k)
+	case 11:
+		name = "go-arguments-snapshot"
+		b.WriteString("type §Pair struct{ A, B int }\n//--\n")
+		body = fmt.Sprintf(`res := make(chan int, %d)
+for g := 0; g < %d; g++ {
+	p := §Pair{g, 2 * g}
+	arr := [3]int{g, g + 1, g + 2}
+	s := "s"
+	f := func(x int) int { return x + 1 }
+	go func(q §Pair, a [3]int, t string, h func(int) int) { res <- q.A*100 + q.B + a[1] + len(t) + h(q.A) }(p, arr, s, f)
+	// arguments were evaluated by the go statement: none of these assignments may be seen by the goroutine
+	p.A, p.B = 100000, 200000
+	arr[1] = 5000
+	s = "much longer"
+	f = func(x int) int { return x + 70000 }
+}
+sum := 0
+for g := 0; g < %d; g++ { sum += <-res }
+rec(1, sum)`, n, n, n)
 	default:
 		name = "panic-in-goroutine-recovered"
 		body = fmt.Sprintf(`res := make(chan string, %d)
@@ -341,7 +360,7 @@ func repoLine(frame string) string {
 }
 
 func checkC10(r *fw.Run) {
-	r.SetRule("seeded instances of 12 race-free concurrent program templates (fork-join over channels, pipelines with close+range, mutex counters, unbuffered ping-pong, producer/consumer, fan-in of unique ids checked in-program for per-producer order and exactly-once, select with default / ready cases and a quit channel, closures shared through sync/atomic, nested goroutines outliving their starter, sync.Once+RWMutex, worker pools, panics recovered inside goroutines) with seeded sizes and buffer capacities; every program's recorded result is schedule-independent by construction (or an admissibility predicate evaluated in-program) and must equal compiled Go's; each program is run by the race-detector build of the interpreter under GOMAXPROCS 1, 4 (quick) / 1, 2, 4, 16 (thorough) with seeded yields at goroutine hand-over points and the frame-ownership assertion on; any race report with a gomacro frame is a violation; distinct = distinct (program, GOMAXPROCS)")
+	r.SetRule("seeded instances of 13 race-free concurrent program templates (fork-join over channels, pipelines with close+range, mutex counters, unbuffered ping-pong, producer/consumer, fan-in of unique ids checked in-program for per-producer order and exactly-once, select with default / ready cases and a quit channel, closures shared through sync/atomic, nested goroutines outliving their starter, sync.Once+RWMutex, worker pools, panics recovered inside goroutines, go-statement arguments of struct/array/string/func kinds reassigned right after the go statement) with seeded sizes and buffer capacities; every program's recorded result is schedule-independent by construction (or an admissibility predicate evaluated in-program) and must equal compiled Go's; each program is run by the race-detector build of the interpreter under GOMAXPROCS 1, 4 (quick) / 1, 2, 4, 16 (thorough) with seeded yields at goroutine hand-over points and the frame-ownership assertion on; any race report with a gomacro frame is a violation; distinct = distinct (program, GOMAXPROCS)")
 	r.Assume("the Go race detector only judges the interleavings that occurred; a deadlock shows as a watchdog timeout = inconclusive, never a verdict")
 	if p := fw.ReplayArg(); p != "" {
 		e1ReplayFile(r, p, e1Opts{})
